@@ -16,7 +16,13 @@ const (
 	TFunc           // type X func() uint64
 	TOther          // type from a package the program file does not import
 	NumTypeKinds
+	// Kinds drawn separately (not through NumTypeKinds):
+	TBasic // predeclared type: X selects uint64, int64, string, uintptr
+	TParam // type parameter (constraint ~uint64) of the generic function enclosing the flow
 )
+
+// BasicNames are the predeclared types a flow value can have (TypeSpec.X).
+var BasicNames = []string{"uint64", "int64", "string", "uintptr"}
 
 // Forms in which a user function is written.
 const (
@@ -73,10 +79,22 @@ type FlowP struct {
 	// EmitShared: the first emitter is a (nested) stack shared by every
 	// execution of the run, as a process-wide emitter would be.
 	EmitShared bool  `json:"emit_shared,omitempty"`
-	OptSeed    int64 `json:"opt_seed"`            // shuffles the option order
+	// EmitSlice: the two emitters are passed as cff.EmitterStack(s...) where s
+	// is a slice (starting with cff.NopEmitter()) that the whole run shares.
+	EmitSlice bool  `json:"emit_slice,omitempty"`
+	OptSeed   int64 `json:"opt_seed"` // shuffles the option order
 	WrapArgs   bool  `json:"wrap_args"`           // wrap directive arguments in rt.Arg probes
 	ErrIdent   bool  `json:"err_ident,omitempty"` // a directive argument mentions the user's variable err
+	Generic    bool  `json:"generic,omitempty"`   // the enclosing function is generic; TParam types are its type parameters
+	// MutArg: the first cff.Params value is a bare variable, and the next
+	// argument in source order is a call that overwrites that variable (with
+	// MutVal) as a side effect: the value read must still be the original.
+	MutArg bool `json:"mut_arg,omitempty"`
 }
+
+// MutVal is what a later argument's side effect stores into the variable an
+// earlier argument reads.
+const MutVal uint64 = 0x0bad0bad0bad0001
 
 type PEnd struct {
 	Ctx bool `json:"ctx,omitempty"`
@@ -114,10 +132,14 @@ type ParP struct {
 	EmitNest   bool    `json:"emit_nest,omitempty"`
 	InstrPar   bool    `json:"instr_par,omitempty"`
 	EmitShared bool    `json:"emit_shared,omitempty"`
+	EmitSlice  bool    `json:"emit_slice,omitempty"`
 	OptSeed    int64   `json:"opt_seed"`
 	WrapArgs   bool    `json:"wrap_args"`
 	ErrIdent   bool    `json:"err_ident,omitempty"`
 	Generic    bool    `json:"generic,omitempty"` // enclosing function is generic
+	// MutArg: the first collection is passed as a bare variable, and the next
+	// argument in source order is a call that sets that variable to nil.
+	MutArg bool `json:"mut_arg,omitempty"`
 }
 
 // ProbeInfo describes one rt.Arg probe of a program, in source order.
